@@ -322,6 +322,14 @@ def is_int(x):
     return F(x).denominator == 1
 
 
+def rob_in(lo, x, hi, exact_ctx):
+    """lo <= x <= hi with a 2^-40 relative safety margin on both sides; touching an edge exactly is accepted when the
+    float evaluation is exact (integer-valued intermediates)."""
+    a = lo * (1 + SLACK) <= x or (exact_ctx and lo == x)
+    b = x <= hi * (1 - SLACK) or (exact_ctx and x == hi)
+    return a and b
+
+
 def ceil_div(a, b):
     return -((-a) // b)
 
@@ -507,7 +515,7 @@ class Xilinx:
                     in_win = lo <= vco <= hi
                 if not in_win:
                     continue
-                rob_win = lo * (1 + SLACK) <= vco <= hi * (1 - SLACK)
+                rob_win = rob_in(lo, vco, hi, win_exact and ints)
                 all_ok, all_rob = True, rob_win
                 for n, (f, p, m) in enumerate(outs):
                     dlo, dhi = self.window(d, vco, f, m)
@@ -796,7 +804,7 @@ class Ecp5:
                         in_win = vmin <= vco <= vmax
                     if not in_win:
                         continue
-                    rob = vmin * (1 + SLACK) <= vco <= vmax * (1 - SLACK) and pmin * (1 + SLACK) <= pfd <= pmax * (1 - SLACK)
+                    rob = rob_in(vmin, vco, vmax, exact_ctx) and rob_in(pmin, pfd, pmax, exact_ctx)
                     all_ok, all_rob = True, rob
                     fb_first, fb_first_rob, fb_any_rob = False, False, False
                     for n, (f, p, m, dpa) in enumerate(outs):
@@ -1134,7 +1142,7 @@ class Ice40:
                     ok = ok or good
                     if diff <= f * m - SLACK * f or (diff == 0 and exact_ctx):
                         rob = True
-                if rob and vmin * (1 + SLACK) <= vco <= vmax * (1 - SLACK) and robust is None:
+                if rob and rob_in(vmin, vco, vmax, exact_ctx) and robust is None:
                     robust = (divr, divf)
                 if ok and first is None:
                     first = (divr, divf)
@@ -1280,7 +1288,7 @@ class Nx:
         for clki in range(*d["clki"]):
             exact_ctx = is_int(clkin) and int(clkin) % clki == 0 and all(is_int(f) for f, _, _ in outs)
             pfd = clkin / clki
-            pfd_rob = pmin * (1 + SLACK) <= pfd <= pmax * (1 - SLACK)
+            pfd_rob = rob_in(pmin, pfd, pmax, exact_ctx)
             kmin, kmax = math.ceil(vmin / pfd), math.floor(vmax / pfd)
             for fb in range(max(d["clkfb"][0], kmin - 1), min(d["clkfb"][1] - 1, kmax + 1) + 1):
                 vco = pfd * fb
@@ -1290,7 +1298,7 @@ class Nx:
                     in_win = vmin <= vco <= vmax
                 if not in_win:
                     continue
-                all_ok, all_rob = True, vmin * (1 + SLACK) <= vco <= vmax * (1 - SLACK) and pfd_rob
+                all_ok, all_rob = True, rob_in(vmin, vco, vmax, exact_ctx) and pfd_rob
                 for n, (f, p, m) in enumerate(outs):
                     dlo, dhi = divider_window(vco, f, m)
                     nflag = fl.count
